@@ -228,6 +228,13 @@ class Atom(object):
                         break
                 for j, (ev, sites, ws, lt) in enumerate(prof[:cut]):
                     apply_event_writes(node, ev, ws, i)
+                if cut < len(prof) and prof[cut][0].get("lazy"):
+                    # a lazily evaluated argument (generator expression) raised while its consumer was already
+                    # mutating: the consumer's writes may have happened partially
+                    for (ev2, sites2, ws2, lt2) in prof[cut + 1:]:
+                        if ev2["kind"] == "call" and not ev2.get("lazy"):
+                            apply_event_writes(node, ev2, ws2, i)
+                            break
             else:
                 for (ev, sites, ws, lt) in prof:
                     apply_event_writes(node, ev, ws, i)
@@ -247,7 +254,7 @@ class Atom(object):
                 effective = [s["w"] for s in prior] + own_before + (list(ws) if is_late else [])
                 if lazy_first and j + 1 < len(prof):
                     # a lazily evaluated argument (generator expression) runs while the consuming call mutates
-                    nxt = [x for x in prof[j + 1:] if x[0]["kind"] == "call"]
+                    nxt = [x for x in prof[j + 1:] if x[0]["kind"] == "call" and not x[0].get("lazy")]
                     if nxt:
                         effective = effective + [w for w in nxt[0][2]]
                 if effective:
